@@ -1,7 +1,18 @@
 //! Printers (copied from harness/src/bin/c08/gallina.rs): serde_json::Value,
 //! schemars::schema::Schema and the published OpenAPI schema (parsed strictly
 //! from the document's JSON) as Gallina terms of Json.v / Schema.v.
-use dsverif::util::{g_bool, g_list, g_opt, g_str};
+use dsverif::util::{g_bool, g_bytes, g_list, g_opt};
+
+/// a string as a term of type `str`: `(bs "..")` (Params.bs, a Coq string
+/// literal: much cheaper to parse than a list of numerals) when every byte is
+/// printable ASCII, the list of its bytes otherwise
+pub fn g_str(s: &str) -> String {
+    if !s.is_empty() && s.bytes().all(|b| (32..127).contains(&b)) {
+        format!("(bs \"{}\"%string)", s.replace('"', "\"\""))
+    } else {
+        g_bytes(s.as_bytes())
+    }
+}
 use schemars::schema::{
     ArrayValidation, InstanceType, Metadata, NumberValidation, ObjectValidation, Schema,
     SchemaObject, SingleOrVec, StringValidation, SubschemaValidation,
